@@ -19,7 +19,7 @@ theorem getElem?_set_ne' {α} {l : List α} {i j : Nat} {a : α} (h : i ≠ j) :
 theorem bindTx_root_mem (s : St) (p : Nat) (x : Txn) (h : s.bindTx[p]? = some (some x)) : (x.due, Root.bindTx p) ∈ roots s := by
   unfold roots
   simp only [List.mem_append]
-  right
+  left; right
   rw [List.mem_flatMap]
   exact ⟨(some x, p), List.mk_mem_zipIdx_iff_getElem?.mpr h, by simp [optRoot]⟩
 
